@@ -60,12 +60,12 @@ PROPS["C11"] = dict(
 PROPS["C13"] = dict(
     bounded_native=[dict(unit="closure_scope", bound="13 scripted programs over the five closure-taking functions", functions=["stdlib for_each/filter/map_keys/map_values/replace_with loops", "Builder::compile_closure"], text="the iteration loops of the closure-taking stdlib functions and the compile-time scoping are out of reach: closure parameters are restored / not visible afterwards on the scripted programs")],
     level="proof",
-    text="closure parameter scoping: the four real Runner methods, insert, cleanup and ident, extracted and verified by Verus against a ghost variable store; every exit path (Ok, error, return)",
-    verus=["v_closure_runner"],
+    text="closure parameter scoping: the four real Runner methods, insert, cleanup and ident, extracted and verified by Verus against a ghost variable store; every exit path (Ok, error, return); the real bodies of stdlib for_each, map_keys and map_values verified modularly against those Runner contracts (loop invariant: parameters restored after any number of iterations, on every exit)",
+    verus=["v_closure_runner", "v_closure_callers"],
     kani=[],
-    trusted=["verus prelude interp.rs + closure.rs: RuntimeState::{insert_variable, remove_variable, swap_variable} contracts (HashMap insert/remove/entry, std); closure::insert, closure::cleanup and Runner::ident are verified from their real bodies",
+    trusted=["verus prelude closurecallers.rs: ValueIter::next is finite; iteration items are opaque handles; the Runner method contracts used there are the ones discharged by v_closure_runner", "verus prelude interp.rs + closure.rs: RuntimeState::{insert_variable, remove_variable, swap_variable} contracts (HashMap insert/remove/entry, std); closure::insert, closure::cleanup and Runner::ident are verified from their real bodies",
              "call_runner: the closure body is havoc on the store with an arbitrary outcome"],
-    not_covered=["compile-time half: Builder::compile_closure restoring state.local", "the five stdlib callers beyond the frame scan that they only run closures through Runner"],
+    not_covered=["compile-time half: Builder::compile_closure restoring state.local", "stdlib filter (iterator adapters whose closure captures &mut ctx) and replace_with (regex captures, str slicing): only the frame scan that they run closures through Runner, plus the bounded stand-in; for_each, map_keys and map_values ARE under contract (v_closure_callers, checked against the Runner contracts)"],
     technique="contract-based deductive verification (Verus on mechanically extracted real bodies)",
 )
 
@@ -85,7 +85,7 @@ PROPS["C06"] = dict(
     bounded_native=[dict(unit="ctl_programs", bound="48 scripted programs", functions=["stdlib closure functions", "Compiler"], text="end-to-end stand-in for the parts the node contracts do not cover (stdlib iteration loops, compilation): return/abort/short-circuit behave as specified on the scripted programs")],
     level="proof",
     text="`return` cannot be intercepted: Ctl contract on every interpreter node that evaluates children (real bodies extracted, Verus), the From<ValueError> conversion, the closure Runner (return = iteration value), Return::resolve raises exactly the value",
-    verus=["v_nodes", "v_op_resolve", "v_value_error_from", "v_closure_runner", "v_target_ops"],
+    verus=["v_nodes", "v_op_resolve", "v_value_error_from", "v_closure_runner", "v_closure_callers", "v_target_ops"],
     kani=[],
     scans=["expr_variants", "closure_callers"],
     trusted=INTERP_TRUSTED,
@@ -96,7 +96,7 @@ PROPS["C07"] = dict(
     bounded_native=[dict(unit="ctl_programs", bound="48 scripted programs", functions=["stdlib closure functions", "Compiler"], text="end-to-end stand-in for the parts the node contracts do not cover (stdlib iteration loops, compilation): return/abort/short-circuit behave as specified on the scripted programs")],
     level="proof",
     text="`abort` cannot be intercepted: Ctl contract on every interpreter node that evaluates children (real bodies extracted, Verus), the From<ValueError> conversion, the closure Runner, Abort::resolve raises the abort outcome",
-    verus=["v_nodes", "v_op_resolve", "v_value_error_from", "v_closure_runner"],
+    verus=["v_nodes", "v_op_resolve", "v_value_error_from", "v_closure_runner", "v_closure_callers"],
     kani=[],
     scans=["expr_variants", "closure_callers"],
     trusted=INTERP_TRUSTED,
@@ -259,7 +259,7 @@ PROPS["C15"] = dict(
 PROPS["C04"] = dict(
     level="proof",
     text="panic-freedom as a by-product of every unit: each Verus unit discharges the body-safety obligations of its function (arithmetic overflow, index bounds, unwrap/expect/unreachable!, callee preconditions, loop termination) and each Kani unit discharges every reachable CBMC built-in check (panics, overflow checks, out-of-bounds, invalid memory) of the code it exercises, for all inputs of its domain",
-    verus=["v_format_radix", "v_format_number", "v_find", "v_chars_iter", "v_crud_vec", "v_closure_runner", "v_op_resolve", "v_nodes", "v_value_error_from", "v_target_ops", "v_read_only"],
+    verus=["v_format_radix", "v_format_number", "v_find", "v_chars_iter", "v_crud_vec", "v_closure_runner", "v_closure_callers", "v_op_resolve", "v_nodes", "v_value_error_from", "v_target_ops", "v_read_only"],
     kani=["c10_int_cmp", "c10_float_cmp", "c10_mixed_eq", "c11_int_arith", "c11_int_rem_class", "c11_int_div_class", "c11_float_add", "c11_float_sub",
           "c11_float_div_class", "c11_float_rem_class", "c11_mixed_add_sub", "c11_mixed_div_class", "k_abs_int", "k_abs_float", "k_to_int_scalar", "k_to_float_scalar",
           "k_try_and_table", "k_try_boolean", "k_ipv4_mask", "k_ipv6_mask"],
